@@ -304,9 +304,14 @@ func RemoveAll(path string) error {
 		return err
 	}
 	if fi.IsDir() {
-		ents, _ := os.ReadDir(path)
-		for _, e := range ents {
-			if err := RemoveAll(filepath.Join(path, e.Name())); err != nil {
+		// entries in the order the file system returns them, as os.RemoveAll / rm -r see them
+		var names []string
+		if d, err := os.Open(path); err == nil {
+			names, _ = d.Readdirnames(-1)
+			d.Close()
+		}
+		for _, n := range names {
+			if err := RemoveAll(filepath.Join(path, n)); err != nil {
 				return err
 			}
 		}
